@@ -139,6 +139,17 @@ func (e *Engine) registerIntrinsics() {
 		}
 		return c.ret(TimeV{v})
 	})
+	r(vnPkg+".Secret", func(c *CallCtx) []Outcome {
+		s := c.args[0].(*Str)
+		class := uint32(mustConstInt(c.args[1]))
+		if len(s.p) == 0 {
+			return c.ret(s)
+		}
+		return c.ret(sWithTaint(s, class))
+	})
+	r(vnPkg+".TaintOf", func(c *CallCtx) []Outcome {
+		return c.ret(I(int64(sTaint(c.args[0].(*Str)))))
+	})
 	r(vnPkg+".Bound", func(c *CallCtx) []Outcome {
 		name := mustConstStr(c.args[0])
 		def := mustConstInt(c.args[1])
